@@ -211,6 +211,44 @@ func runC40(c *Ctx) {
 			}
 		}
 	})
+	c.Rule("clock-decoded-if-present", func() {
+		// causal metadata is decoded whenever its message is present: a clock read that is skipped because ANOTHER field
+		// is empty (e.g. a key set without live entries) silently drops the record of removals
+		n := 0
+		for _, name := range []string{"decodeORMap", "decodeORSet", "decodeMVRegister"} {
+			fn := c.Func("internal/ddata", name)
+			f := c.NewFlow(fn)
+			info := f.Info
+			getClock := func(nd ast.Node) bool {
+				call, ok := nd.(*ast.CallExpr)
+				return ok && isCallNamed(info, call, "GetClock")
+			}
+			if len(f.Find(getClock)) == 0 {
+				c.Bad("clock-read/"+name, "the decoder reads the clock of the wire message", c.P.Pos(fn.Decl.Pos()), "no GetClock() in "+name)
+				continue
+			}
+			n++
+			// exits that may skip the read: a decode error, or the nil edge of the message holding the clock
+			skip := map[Edge]bool{}
+			for _, a := range f.Find(getClock) {
+				recv := recvExpr(a.N.(*ast.CallExpr))
+				obj := objOf(info, recv)
+				for e := range f.NilCheckEdges(func(x ast.Expr) bool { return obj != nil && objOf(info, x) == obj }, false) {
+					skip[e] = true
+				}
+			}
+			okRet := func(nd ast.Node) bool {
+				r, ok := nd.(*ast.ReturnStmt)
+				return ok && len(r.Results) == 2 && isNilIdent(info, r.Results[1])
+			}
+			w := f.search(searchSpec{avoid: getClock, avoidEdges: skip, target: okRet})
+			c.Check(w == nil, "clock-read/"+name, "a successful decode has read the clock unless the message that carries it is absent", c.P.Pos(fn.Decl.Pos()), "the clock read is skipped on a path where its message is present: "+f.describe(w))
+		}
+		if n < 3 {
+			c.Undecided("clock-read/sites", "clock-carrying decoders found", "-", "found "+itoa(n))
+		}
+	})
+
 	c.Rule("key", func() {
 		encK, decK := c.Func("internal/codec", "EncodeCRDTKey"), c.Func("internal/codec", "DecodeCRDTKey")
 		dom := c.Named("crdt", "DataType")
